@@ -146,27 +146,26 @@ def classify(text_lines):
     return m.group(1) if m else "crash"
 
 
-def threads_part(ctx, exe_plain, dist):
+def threads_part(ctx, exe_plain, dist, ns=(2, 3, 4), rounds=6):
     """supporting evidence (no model): real threads on the shared variants, same oracle"""
-    runs = []
+    runs = dist.setdefault("threads_runs", [])
     for kind in ["shared", "swiss"]:
-        for n in [2, 3, 4]:
+        for n in ns:
             seed = ctx.rng.randrange(1, 10 ** 6)
-            r = sh([str(exe_plain), "threads", kind, str(n), str(seed), "6"], timeout=600)
+            r = sh([str(exe_plain), "threads", kind, str(n), str(seed), str(rounds)], timeout=600)
             last = r.stdout.strip().splitlines()[-1] if r.stdout.strip() else "<no output>"
             runs.append(last)
             if r.returncode != 0 or "!ORACLE" in r.stdout:
                 kindf = classify(r.stdout.splitlines())
                 ctx.failing_input("threads:%s:%s" % (kind, kindf),
-                                  "# concurrent run on the real %s resource (no model)\nthreads %s %d %d 6\n# output:\n%s" % (
-                                      kind, kind, n, seed, "\n".join("#   " + l for l in r.stdout.splitlines()[-30:])))
-    dist["threads_runs"] = runs
+                                  "# concurrent run on the real %s resource (no model)\nthreads %s %d %d %d\n# output:\n%s" % (
+                                      kind, kind, n, seed, rounds, "\n".join("#   " + l for l in r.stdout.splitlines()[-30:])))
 
 
 def run(ctx):
     ctx.cov["trusted_base"] += [
         "harness/c06.cpp: recording page allocators / upstream resources with deterministic placement stand for arbitrary allocators (theorems quantify over every placement satisfying the stated assumptions)",
-        "the three intrusive linked lists are Lean lists in the model; `(x + a - 1) & -a` is modelled as arithmetic round-up (equal for power-of-two a; 64-bit address overflow ignored)",
+        "the three intrusive linked lists are Lean lists in the model (each node keeps its address; the shape facts the code relies on -- non-head arrays full, arrays filled from the top -- are part of the proved invariant); `(x + a - 1) & -a` is modelled as arithmetic round-up, proved equal for power-of-two a (align_mask_is_round_up) when no 64-bit address overflow occurs; overflow itself is ignored",
         "block contents are not modelled: stability is stated as 'no bookkeeping write and no returned region touches a live block'; on the real code it is sampled with canary bytes under ASan",
         "UBSan null check disabled for this harness only (default member initialisers form `&nullptr->pages`)",
     ]
@@ -178,8 +177,11 @@ def run(ctx):
         "shared/swiss variants: one exclusive resource per thread (C19 slot privacy); covered by supporting concurrent runs in the thorough tier, not by a theorem here",
     ]
     ctx.gen(["arena"])
+    ctx.log("translator done")
     ctx.lake_build(["Babylon.Properties.C06"])
+    ctx.log("lake build done")
     ctx.audit("Babylon.Properties.C06")
+    ctx.log("audit done")
     if not ctx.quick:
         ctx.leanchecker(["Babylon.Arena.Model", "Babylon.Arena.Lemmas", "Babylon.Properties.C06"])
     drv = ctx.driver("drv_C06")
@@ -189,6 +191,7 @@ def run(ctx):
         return
     if drv is None:
         return
+    ctx.log("driver + harness built")
     ncases = 160 if ctx.quick else 2000
     if ctx.broken:
         ncases *= 10   # search mode: a proof obligation broke, look harder for a failing input
@@ -223,7 +226,9 @@ def run(ctx):
         kinds = set((o.split()[1] if o.split()[0] in ("A", "B") else o.split()[0]) for o in c)
         if len(seen) >= 4 and len(kinds) >= 5 and any(o.endswith("release") for o in c):
             nontrivial.add(sha("\n".join(c)))
+    ctx.log("cases generated, model paths traced")
     diffs = ctx.eseq(exe, drv, cases)
+    ctx.log("E-SEQ done: %d cases, %d differences" % (len(cases), len(diffs)))
     for (ci, li, op, a, b) in diffs:
         case = cases[ci]
         oracle = "!ORACLE" in a or "<no-output" in a
@@ -252,13 +257,16 @@ def run(ctx):
     if ncorp:
         ctx.notes.append("corpus cases run first: %d" % ncorp)
     excluded_point(ctx, exe, drv)
+    # supporting evidence for the shared / swiss variants (real threads, same oracle, ASan+UBSan)
+    threads_part(ctx, exe, dist, ns=(2, 4), rounds=3)
+    ctx.log("concurrent supporting runs done")
     if not ctx.quick:
         exe_plain, log = build_exe("c06p", ["harness/c06.cpp"], "plain", repo_cpp=REPO_CPP)
         if exe_plain is None:
             ctx.broke("correspondence", "harness/c06.cpp (plain) does not build", log[-800:])
         else:
-            threads_part(ctx, exe_plain, dist)
-            threads_part(ctx, exe, dist)   # and under ASan+UBSan
+            threads_part(ctx, exe_plain, dist, rounds=20)
+            threads_part(ctx, exe, dist, ns=(3,), rounds=10)
     ctx.cov["distribution"] = dist
     ctx.cov["distinct_nontrivial"] = len(nontrivial)
     ctx.cov["rule"] = ("random op histories over two resources sharing / not sharing 2 page allocators (page size 128..4096, ascending / descending / "
